@@ -1167,7 +1167,8 @@ class TableDescription(ViewRepresentation):
     def __eq__(self, other):
         if not isinstance(other, TableDescription):
             return False
-        return self.key.__eq__(other.key)
+        # same table name alone is not enough: the column list (and qualifiers) decide the SQL and the result
+        return self._equiv_nodes(other)
 
     def __hash__(self):
         return self.key.__hash__()
